@@ -6,6 +6,7 @@ import (
 	"encoding/hex"
 	"fmt"
 	"net"
+	"runtime"
 	"strings"
 	"sync"
 	"sync/atomic"
@@ -280,16 +281,27 @@ func loopbackBurst(n, senders int, gap time.Duration) string {
 	if err != nil {
 		return ""
 	}
-	target, _ := a.CreateRef(addrB, "/sink")
 	var wg sync.WaitGroup
 	extra := 0
 	if gap > 0 {
 		extra = 1
 	}
+	// all senders make their first send to the (not yet connected) peer at the same moment: they spin on a flag
+	var startAll atomic.Bool
+	var armed sync.WaitGroup
+	armed.Add(senders)
 	for s := 0; s < senders; s++ {
 		wg.Add(1)
 		go func(s int) {
 			defer wg.Done()
+			// every sender holds its own reference to the remote actor (its own mailbox cache)
+			target, _ := a.CreateRef(addrB, "/sink")
+			armed.Done()
+			for !startAll.Load() {
+				if senders > runtime.GOMAXPROCS(0)-2 {
+					runtime.Gosched()
+				}
+			}
 			for i := 0; i < n+extra; i++ {
 				if i == n {
 					time.Sleep(gap)
@@ -302,6 +314,8 @@ func loopbackBurst(n, senders int, gap time.Duration) string {
 			}
 		}(s)
 	}
+	armed.Wait()
+	startAll.Store(true)
 	wg.Wait()
 	want := (n + extra) * senders
 	deadline := time.Now().Add(3 * time.Second)
@@ -494,6 +508,12 @@ func (e *framingEngine) Generate(c *Ctx) {
 	c.R.Hit("burst")
 	c.Case("burst 200 4")
 	c.R.Hit("burst")
+	// concurrent first senders on fresh pairs of systems (the first send creates the outbound mailbox)
+	for i := 0; i < 40; i++ {
+		c.Case("burst 25 8")
+		c.R.Hit("burst")
+		c.R.Hit("burst:first-concurrent")
+	}
 	c.Case("mesh 2 50 0")
 	c.Case("mesh 3 60 65536")
 	c.Case("mesh 4 40 262144")
